@@ -53,6 +53,7 @@ class _Ctx:
                 return
             den = max(den, d)
             tot += abs(t)
+        self.notes["maxden"] = max(self.notes.get("maxden", 1), den)
         if tot * den >= 2**53 or den > 2**900:
             # (a granularity finer than 2**-900 is in or near the subnormal range, where products round)
             self.exact = False
@@ -142,12 +143,11 @@ def _node(spec, items, ctx, path):  # noqa: PLR0911, PLR0912, PLR0915
                 ctx.notes["nonfinite"] += 1
         if k == "Sum":
             m, fin = _moments(qw)
-            if not fin:
-                s = m
-            else:
-                terms = [F(q) * w for q, w in qw]
-                ctx.acc(terms)
-                s = sum(terms, Fraction(0))
+            # exactness is judged on the finite terms even when a NaN / inf makes the total non-finite: partial
+            # results that do not contain the non-finite row are compared too
+            terms = [F(q) * w for q, w in qw if not (_isnan(q) or _isinf(q))]
+            ctx.acc(terms)
+            s = m if not fin else sum(terms, Fraction(0))
             return {"T": k, "entries": entries, "sum": s}
         if k == "Average":
             m, _ = _moments(qw)
@@ -305,6 +305,8 @@ def _node(spec, items, ctx, path):  # noqa: PLR0911, PLR0912, PLR0915
             if _isinf(s):
                 raise ValueError("infinite selection weights are outside the generated domain")
             sw = F(s) * w
+            if not _exact_op(sw):
+                ctx.exact = False  # the library's float product selection*weight rounds (e.g. 0.1 * 3.0)
             if sw > 0:
                 passed.append((row, sw))
         if k == "Select":
